@@ -43,6 +43,33 @@ struct Rec {
 };
 inline long to_long(const Rec& r) { return r.tag == "default-constructed" ? r.v : -777000 - (long)r.tag.size(); }
 inline void from_long(long v, Rec& out) { out.v = v; }
+/// a value type whose copy can throw — only while the harness arms it, i.e. inside a
+/// setDelayedValue(key, const X&) call: that call then fails as a whole and must leave the
+/// key exactly as it was (still pending, not "completed")
+struct TRec {
+    long v{0};
+    static thread_local bool armed;
+    TRec() = default;
+    TRec(const TRec& o): v(o.v)
+    {
+        if (armed && gsim::fault_fires(gsim::F_THROW)) throw gsim::injected{90, 0};
+    }
+    TRec(TRec&& o) noexcept: v(o.v) {}
+    TRec& operator=(const TRec&) = default;
+    TRec& operator=(TRec&&) noexcept = default;
+};
+thread_local bool TRec::armed = false;
+inline long to_long(const TRec& r) { return r.v; }
+inline void from_long(long v, TRec& out) { out.v = v; }
+template<class X>
+struct Arm {
+    Arm() {}
+};
+template<>
+struct Arm<TRec> {
+    Arm() { TRec::armed = true; }
+    ~Arm() { TRec::armed = false; }
+};
 inline long to_long(int v) { return v; }
 inline long to_long(const std::string& s) { return s.empty() ? 0 : std::stol(s.substr(1)); }
 inline void from_long(long v, int& out) { out = (int)v; }
@@ -182,8 +209,25 @@ struct WL {
                             if (is_int(k)) d->setDelayedValue(ikey(k), std::move(v));
                             else d->setDelayedValue(skey(k), std::move(v));
                         } else {
-                            if (is_int(k)) d->setDelayedValue(ikey(k), v);
-                            else d->setDelayedValue(skey(k), v);
+                            bool threw = false;
+                            try {
+                                Arm<X> arm;
+                                if (is_int(k)) d->setDelayedValue(ikey(k), v);
+                                else d->setDelayedValue(skey(k), v);
+                            }
+                            catch (const gsim::injected&) {
+                                threw = true;
+                            }
+                            if (threw) {
+                                // the call failed: it never happened as far as the life cycle goes
+                                if (gsim::held_exclusive())
+                                    gsim::fail("lock_leaked_on_throw", "setDelayedValue left its lock held");
+                                gsim::Oracle o;
+                                S->hist[(size_t)e].op = -1;
+                                S->hist[(size_t)e].optional = true;
+                                gsim::probe("dobj.set_failed_with_exception");
+                                break;
+                            }
                         }
                         hend(e, 0);
                         break;
@@ -364,10 +408,14 @@ void run()
 {
     gsim::check_races(gsim::param_int("races", 0) != 0);
     gsim::enable_fault(gsim::F_STALE_READ, gsim::knob("stale", 0, 1) * 200);
-    switch (gsim::knob("xtype", 0, 2)) {
+    switch (gsim::knob("xtype", 0, 3)) {
         case 0: WL<int>().run(); break;
         case 1: WL<std::string>().run(); break;
-        default: WL<Rec>().run(); break;
+        case 2: WL<Rec>().run(); break;
+        default:
+            gsim::enable_fault(gsim::F_THROW, 250);
+            WL<TRec>().run();
+            break;
     }
 }
 }  // namespace
